@@ -197,6 +197,7 @@ class NDArray:
         # None = unknown (arrays that are *inputs*: a dataset may hold Fortran-ordered or otherwise strided data).  The layout only
         # matters for ndarray.ravel(): a view for C-contiguous arrays, a copy otherwise (a store through it is then lost).
         self.order = 'C'
+        self._born = core._clock()
 
     def frozen(self):
         """Value snapshot: derived arrays read this, so later stores into the source are not seen through them."""
@@ -515,6 +516,10 @@ class NDArray:
             raise_(ValueError, 'assignment destination is read-only')
         if not isinstance(idx, tuple):
             idx = (idx,)
+        a = self
+        while a is not None:
+            core.foreach_guard(getattr(a, '_born', 0), 'store into an array')
+            a = a.base[0] if a.base is not None else None
         old_fn, old_mask = self.fn, self.mask_fn
         region, val_at = self._store_region(idx, value)
         val_masked = None
@@ -609,10 +614,23 @@ class NDArray:
 
     # -- methods -------------------------------------------------------------------------
     def reshape(self, *shape, order='C'):
-        if order != 'C':
-            raise Unsupported(f"reshape order={order!r}")
         if len(shape) == 1 and isinstance(shape[0], (tuple, list)):
             shape = tuple(shape[0])
+        if order == 'A':
+            # NP-RESHAPE-ORDER: 'A' = Fortran index order iff the array is Fortran-contiguous and not C-contiguous
+            used('NP-RESHAPE-ORDER')
+            layout = self.order if self.ndim >= 2 else 'C'
+            if layout is None:
+                from .stdlib import choice
+                layout = 'C' if choice('array_is_c_contiguous') else ('F' if choice('array_is_f_contiguous') else 'C')
+            order = layout
+        if order == 'F':
+            used('NP-RESHAPE-ORDER')
+            r = transpose(reshape(transpose(self), tuple(reversed(tuple(shape)))))
+            r.order = 'F'
+            return r
+        if order != 'C':
+            raise Unsupported(f"reshape order={order!r}")
         return reshape(self, shape)
 
     def ravel(self, order='C'):
